@@ -271,7 +271,10 @@ func evalC15Pair(a, b []byte) (vs []*Violation, res [64]bool) {
 	// entry points agree, handed-back URIs are the separately parsed ones
 	for _, f := range []int{0, 63, 16, 32, 1, 4} {
 		fl := sipsp.URICmpFlags(f)
+		// the structures handed in have been used before (a caller reuses them without Reset)
 		var r1, r2 sipsp.PsipURI
+		sipsp.ParseURI([]byte("sips:x:y@z:9;p=1?h=2"), &r1)
+		r2 = r1
 		ok, e, w := sipsp.URIParseCmp(a, b, fl, &r1, &r2)
 		ok2, e2, w2 := sipsp.URIRawCmp(a, b, fl)
 		if ok != res[f] || e != 0 || ok2 != res[f] || e2 != 0 || w != 0 || w2 != 0 {
